@@ -67,6 +67,7 @@ class Profile(object):
         self.elem_names = True
         self.top_tags = True
         self.wide_additions = True
+        self.very_wide_additions = False    # 63/64/65 additions (normally-small length boundary)
         self.via_ref_floor = True
         self.ref_constraint_rate = 12
         self.via_ref_floor_rate = 30
@@ -74,6 +75,7 @@ class Profile(object):
         self.choice_tags_ascending_rate = 30
         self.bit_fixed_max = None
         self.real_wc_always = False
+        self.real_wc_near = False           # WITH COMPONENTS ranges next to the binary32/binary64 shapes
         self.default_kinds = None       # restrict DEFAULT to these base kinds
         for k, v in kw.items():
             if not hasattr(self, k):
@@ -260,6 +262,17 @@ class _G(object):
             if P.real_wc and (P.real_wc_always or self.chance(50)):
                 t.wc = self.pick([(-16777215, 16777215, 2, -149, 104),
                                   (-9007199254740991, 9007199254740991, 2, -1074, 971)])
+                if P.real_wc_near and self.chance(35):
+                    # X.696 12.2/12.3: ranges just inside / just outside the binary32 and binary64 shapes
+                    t.wc = self.pick([(-16777215, 16777215, 2, -149, 105), (-16777215, 16777215, 2, -149, 127),
+                                      (-16777215, 16777215, 2, -150, 104), (-16777216, 16777215, 2, -149, 104),
+                                      (-16777215, 16777216, 2, -149, 104), (-100, 100, 2, -10, 10),
+                                      (0, 16777215, 2, -149, 104), (-16777215, 16777215, 2, -126, 104),
+                                      (-9007199254740991, 9007199254740991, 2, -1074, 972),
+                                      (-9007199254740991, 9007199254740991, 2, -1075, 971),
+                                      (-9007199254740992, 9007199254740991, 2, -1074, 971),
+                                      (-9007199254740991, 9007199254740991, 2, -1022, 1023),
+                                      (-16777215, 16777215, 10, -149, 104)])
         return t
 
     def enum(self, t, mod):
@@ -391,6 +404,9 @@ class _G(object):
         if wide:
             # presence-bitmap boundaries: 7, 8, 9, 16, 17 additions of simple types
             n_add = self.pick([7, 8, 9, 16, 17])
+            if P.very_wide_additions and self.chance(25):
+                # X.691 11.9 normally-small length: 64 is the last count written in the short form
+                n_add = self.pick([63, 64, 65])
             n = min(n, 2)
         n_root2 = 0
         if has_ext and P.root2 and k != 'CHOICE' and mod.tagdefault != 'AUTOMATIC' and self.chance(25):
@@ -400,6 +416,8 @@ class _G(object):
             has_root2 = False
         total = n + (n_add if wide else n_add * 2) + n_root2
         names = self.member_names(min(total, len(MEMBER_NAMES)))
+        if wide and n_add > 17:
+            names = names[:n] + ['m%d' % i for i in range(n_add + n_root2)]
         it = iter(names)
 
         def mk(in_choice, force_opt=False, mandatory_ok=True):
